@@ -4,6 +4,9 @@
   firing: for every confirmed seeded defect under /verif/seeded/<Cnn>-<k>/ the patch is applied to a
           scratch copy of /repo/src (outside /repo and /verif, removed afterwards) and the property's
           check, pointed at the copy through VERIF_REPO, must exit 1 with a VIOLATION line.
+  quiet:  for every behaviour-preserving refactoring under /verif/benign/<Cnn>-<k>/ (each kept the
+          full suite green) the patch is applied to a scratch copy and every check whose checker
+          mentions a touched file must exit 0: no alarm on code where the property still holds.
 Nothing under /repo is touched.  Uses all cores.
 """
 from __future__ import annotations
@@ -48,6 +51,36 @@ def seeded_case(d: Path) -> dict:
         shutil.rmtree(tmp, ignore_errors=True)
 
 
+def relevant_props(patch: Path, own: str, allp: list[str]) -> list[str]:
+    stems = {Path(l.split(" b/")[-1].strip()).stem for l in patch.read_text().splitlines() if l.startswith("diff --git")}
+    out = {own}
+    for p in allp:
+        src = "".join(f.read_text() for f in (VERIF / "sa" / "props").glob(f"*{p.lower()}*.py"))
+        if any(st in src for st in stems):
+            out.add(p)
+    return sorted(out)
+
+
+def benign_case(job: tuple[Path, list[str]]) -> dict:
+    d, props = job
+    tmp = Path(tempfile.mkdtemp(prefix=f"vsb_{d.name}_"))
+    try:
+        shutil.copytree(REPO / "src", tmp / "src")
+        a = subprocess.run(["patch", "-p1", "-s", "-i", str(d / "patch.diff")], cwd=str(tmp),
+                           capture_output=True, text=True)
+        if a.returncode != 0:
+            return {"refactoring": d.name, "status": "patch-does-not-apply", "alarms": {}}
+        alarms = {}
+        for pid in props:
+            rc, out = run_check(pid, tmp)
+            if rc != 0:
+                first = [l.strip()[:200] for l in out.splitlines() if l.startswith("ANALYSIS-ERROR") or f"[{pid}." in l][:2]
+                alarms[pid] = {"exit": rc, "first": first}
+        return {"refactoring": d.name, "status": "quiet" if not alarms else "ALARM", "checked": props, "alarms": alarms}
+    finally:
+        shutil.rmtree(tmp, ignore_errors=True)
+
+
 def main(argv: list[str]) -> int:
     only = {a.upper() for a in argv if not a.startswith("-")}
     props = sorted(p.stem.upper() for p in (VERIF / "sa" / "props").glob("c[0-9][0-9].py"))
@@ -55,10 +88,20 @@ def main(argv: list[str]) -> int:
         props = [p for p in props if p in only]
     seeds = sorted(d for d in (VERIF / "seeded").iterdir() if d.is_dir() and (d / "patch.diff").exists()
                    and (not only or d.name.split("-")[0] in only))
+    allp = sorted(p.stem.upper() for p in (VERIF / "sa" / "props").glob("c[0-9][0-9].py"))
+    bjobs = []
+    if (VERIF / "benign").is_dir() and "--no-benign" not in argv:
+        for d in sorted((VERIF / "benign").iterdir()):
+            if d.is_dir() and (d / "patch.diff").exists():
+                rel = relevant_props(d / "patch.diff", d.name.split("-")[0], allp)
+                rel = [p for p in rel if not only or p in only]
+                if rel:
+                    bjobs.append((d, rel))
     bad = 0
     with ThreadPoolExecutor(max_workers=min(16, os.cpu_count() or 4)) as ex:
         clean = list(ex.map(lambda p: (p, *run_check(p, None)), props))
         fired = list(ex.map(seeded_case, seeds))
+        quiet = list(ex.map(benign_case, bjobs))
     for p, rc, out in clean:
         ok = rc == 0 and "VIOLATION" not in out
         print(f"silent  {p}: {'ok' if ok else 'FAILED rc=' + str(rc)}")
@@ -66,7 +109,18 @@ def main(argv: list[str]) -> int:
     for r in fired:
         print(f"firing  {r['seed']}: {r['status']} {r.get('rules', '')}")
         bad += 0 if r["status"] == "caught" else 1
-    print(f"selftest: {len(clean)} clean runs, {len(fired)} seeded defects, {bad} problem(s)")
+    nq = 0
+    for r in quiet:
+        if r["status"] != "quiet":
+            what = ", ".join(f"{k} exit={v['exit']}" for k, v in r["alarms"].items()) or r["status"]
+            print(f"quiet   {r['refactoring']}: ALARM {what}")
+            bad += 1
+        else:
+            nq += 1
+    if quiet:
+        print(f"quiet   {nq}/{len(quiet)} behaviour-preserving refactorings raise no alarm")
+    print(f"selftest: {len(clean)} clean runs, {len(fired)} seeded defects, {len(quiet)} refactorings, {bad} problem(s)")
     (VERIF / "reports").mkdir(exist_ok=True)
-    (VERIF / "reports" / "selftest.json").write_text(json.dumps({"clean": [(p, rc) for p, rc, _ in clean], "seeded": fired}, indent=1))
+    (VERIF / "reports" / "selftest.json").write_text(json.dumps(
+        {"clean": [(p, rc) for p, rc, _ in clean], "seeded": fired, "benign": quiet}, indent=1))
     return 1 if bad else 0
